@@ -183,10 +183,17 @@ def counting_discipline(chk, F, rule, cfg, fn, rows):
             chk.ob(rule, 'calls that select no pattern never change a match count', not bad, config=cfg, fn=fn, site='no-count:%s' % r.outcome,
                    what='counter touched without a selected pattern', found=bad, expected=[])
     # who may call
-    bump = F.fn('counter::CallCounter::fetch_add')
-    callers = [(f.defp, bb) for f, bb, t in F.callers_of(bump.defp)]
-    chk.ob(rule, 'the match counter is bumped from exactly one site (next_responder)', len(callers) == 1 and callers[0][0] == 'call_pattern::CallPattern::next_responder',
-           config=cfg, fn=bump, site='callers', what='callers of the counter bump', found=callers, expected=['call_pattern::CallPattern::next_responder'])
+    # the function(s) that advance the match counter: whatever performs an atomic read-modify-write on `actual_count`
+    bumpers = set()
+    for b, bb_, k_, s_ in L.field_accesses(F, 'counter::CallCounter', 'actual_count'):
+        for _, t_ in b.calls(include_cleanup=True):
+            if re.search(r'Atomic\w*::(fetch_\w+|swap|store|compare_exchange\w*)$', symex.callee_name(t_)):
+                bumpers.add(b.root if b.kind == 'closure' else b.defp)
+    callers = []
+    for d_ in sorted(bumpers):
+        callers += [(f.defp, bb) for f, bb, t in F.callers_of(d_)]
+    chk.ob(rule, 'the match counter is bumped from exactly one site (next_responder)', len(bumpers) == 1 and len(callers) == 1 and callers[0][0] == 'call_pattern::CallPattern::next_responder',
+           config=cfg, site='callers', what='callers of the counter bump', found={'bumpers': sorted(bumpers), 'callers': callers}, expected=['call_pattern::CallPattern::next_responder'])
     nr = F.fn('call_pattern::CallPattern::next_responder')
     callers = [(f.defp, bb) for f, bb, t in F.callers_of(nr.defp)]
     chk.ob(rule, 'next_responder is called from exactly one site (eval_dyn)', len(callers) == 1 and callers[0][0].endswith('::eval_dyn'), config=cfg, fn=nr,
